@@ -11,7 +11,7 @@ from harness.common import Machinery, workdir
 ENUM_CFG = "INIT EnumInit\nNEXT EnumNext\nCONSTRAINT EnumEmit\nINVARIANT LawsHold\nCHECK_DEADLOCK FALSE\n"
 JUDGE_CFG = "INIT JudgeInit\nNEXT JudgeNext\nCHECK_DEADLOCK FALSE\n"
 RENDER_CFG = "INIT RenderInit\nNEXT JudgeNext\nCHECK_DEADLOCK FALSE\n"
-LITERAL_FAMILIES = ("full0", "full1", "bref", "brefk", "cls", "mix0", "random")     # also run through a script regex literal
+LITERAL_FAMILIES = ("full0", "full1", "bref", "brefk", "cls", "lead", "mix0", "random")     # also run through a script regex literal
 STEP_LIMIT = 100000          # RegexVM.DEFAULT_STEP_LIMIT: the property's domain is "no budget exhausted"
 
 
@@ -43,7 +43,7 @@ def run(rep):
                 seen.add(k)
                 r["id"] = len(pats)
                 pats.append(r)
-    if len(pats) < 3000 or not subsets:
+    if (len(pats) < 3000 and not os.environ.get("C09_ONLY")) or not subsets:      # C09_ONLY=<family>: development aid (one family alone)
         raise Machinery("enumeration produced only %d patterns / %d subject sets" % (len(pats), len(subsets)))
     pairs = sum(len(subsets[p["subs"]]) for p in pats)
     fams = {}
